@@ -239,7 +239,7 @@ func clipBytes(b []byte) string {
 
 func checkCodecCase(c codecCase, rec *Rec) error {
 	g := c.Model()
-	in := reps(g)[c.Rep]
+	in := repOf(g, c.Rep)
 	rec.Label("rep-" + c.Rep)
 	rec.Labelf("n-%d", bucket(g.N))
 	rec.NonTrivial(g.N >= 2 && g.M() > 0)
@@ -300,7 +300,7 @@ func checkLabelledCodecs(c labelledCase, rec *Rec) error {
 	g := c.Model()
 	rec.NonTrivial(g.N >= 2 && g.M() > 0)
 	for _, rep := range []string{"dense", "sparse"} {
-		in := reps(g)[rep]
+		in := repOf(g, rep)
 		if err := checkGraph6(g, in, rec); err != nil {
 			return err
 		}
